@@ -852,6 +852,50 @@ impl BigUint {
         }
     }
 //@ end
+
+    // contract-only re-homing of `impl num_traits::FromBytes / ToBytes for BigUint` (external traits)
+//@ extract src/biguint.rs :: impl num_traits::FromBytes for BigUint :: fn from_be_bytes tysub=&Self::Bytes=>&[u8] props=C09,C04
+    fn from_be_bytes(bytes: &[u8]) -> /*+*/(res: /*-*/Self/*+*/)/*-*/
+//+{
+        ensures res.wf(), res.v() == valb(rev8(bytes@), 8, bytes@.len())
+//+}
+    {
+        Self::from_bytes_be(bytes)
+    }
+//@ end
+//@ extract src/biguint.rs :: impl num_traits::FromBytes for BigUint :: fn from_le_bytes tysub=&Self::Bytes=>&[u8] props=C09,C04
+    fn from_le_bytes(bytes: &[u8]) -> /*+*/(res: /*-*/Self/*+*/)/*-*/
+//+{
+        ensures res.wf(), res.v() == valb(bytes@, 8, bytes@.len())
+//+}
+    {
+        Self::from_bytes_le(bytes)
+    }
+//@ end
+//@ extract src/biguint.rs :: impl num_traits::ToBytes for BigUint :: fn to_be_bytes tysub=Self::Bytes=>Vec<u8> props=C09
+    fn to_be_bytes(&self) -> /*+*/(res: /*-*/Vec<u8>/*+*/)/*-*/
+//+{
+        requires self.wf()
+        ensures res@.len() >= 1, valb(rev8(res@), 8, res@.len()) == self.v(),
+            self.v() == 0 ==> res@ =~= seq![0u8],
+            self.v() != 0 ==> res@[0] != 0,
+//+}
+    {
+        self.to_bytes_be()
+    }
+//@ end
+//@ extract src/biguint.rs :: impl num_traits::ToBytes for BigUint :: fn to_le_bytes tysub=Self::Bytes=>Vec<u8> props=C09
+    fn to_le_bytes(&self) -> /*+*/(res: /*-*/Vec<u8>/*+*/)/*-*/
+//+{
+        requires self.wf()
+        ensures res@.len() >= 1, valb(res@, 8, res@.len()) == self.v(),
+            self.v() == 0 ==> res@ =~= seq![0u8],
+            self.v() != 0 ==> res@[res@.len() - 1] != 0,
+//+}
+    {
+        self.to_bytes_le()
+    }
+//@ end
 }
 
 } // mod u
